@@ -20,6 +20,7 @@ import (
 )
 
 type evalDom struct {
+	lookupErr map[*ssa.Function]types.Type
 	p        *Program
 	e        *Engine
 	pkg      *ssa.Package
@@ -284,6 +285,34 @@ func (d *evalDom) partOfDispatcherFn() func(f *ssa.Function) bool {
 	return part
 }
 
+// lookupErrorType: the dynamic type of the error a (value, error) scope lookup returns on the nil scope (the end of
+// every chain), nil when that is not one definite type.
+func (d *evalDom) lookupErrorType(lookup *ssa.Function) types.Type {
+	if t, ok := d.lookupErr[lookup]; ok {
+		return t
+	}
+	if d.lookupErr == nil {
+		d.lookupErr = map[*ssa.Function]types.Type{}
+	}
+	d.lookupErr[lookup] = nil
+	e := newEngine(d.p, scopeDom{})
+	e.MaxVisits = 3
+	outs := e.Run(lookup, []AV{avNil{}, avSym{id: e.fresh(), tag: "name"}}, newState())
+	var t types.Type
+	for _, o := range outs {
+		if o.Panic || o.Cut || len(o.Res) != 2 {
+			return nil
+		}
+		iv, ok := o.Res[1].(avIface)
+		if !ok || (t != nil && !types.Identical(t, iv.dyn)) {
+			return nil
+		}
+		t = iv.dyn
+	}
+	d.lookupErr[lookup] = t
+	return t
+}
+
 // evaluatesNodeMap: fn has exactly one loop, a range over a parameter of type map[string]Node, and calls nothing of the
 // repository but the dispatcher (the fields of a multi-select hash or the bindings of a let, evaluated one by one).
 func (d *evalDom) evaluatesNodeMap(fn *ssa.Function) bool {
@@ -510,6 +539,21 @@ func (d *evalDom) Call(e *Engine, st *State, site ssa.CallInstruction, callee *s
 			s := avSym{id: e.fresh(), tag: "S+", nonNil: true, payload: avTuple(args)}
 			st.event(Event{Kind: "push", Fn: callee, Args: args, Res: []AV{s}, Pos: site.Pos()})
 			return []CallOut{{St: st, Res: []AV{s}}}, true
+		}
+		// a lookup that reports absence by an error of its own instead of a bool: found with a nil error, or absent
+		// with the error the method returns on a scope that binds nothing (obtained by interpreting it on the nil scope)
+		if nres == 2 && isErrorType(sig.Results().At(1).Type()) && !isErrorType(sig.Results().At(0).Type()) {
+			if et := d.lookupErrorType(callee); et != nil {
+				found := avSym{id: e.fresh(), tag: "found"}
+				v := avSym{id: e.fresh(), tag: "var"}
+				yes, no := st, st.clone()
+				if yes.assume(found, true, site.Pos()) && no.assume(found, false, site.Pos()) {
+					yes.event(Event{Kind: "lookup", Fn: callee, Args: args, Res: []AV{v, found}, Pos: site.Pos()})
+					no.event(Event{Kind: "lookup", Fn: callee, Args: args, Res: []AV{avNil{}, found}, Pos: site.Pos()})
+					errv := avIface{dyn: et, v: avPtr{e.NewObj("lookup-error", derefType(et)), ""}}
+					return []CallOut{{St: yes, Res: []AV{v, avNil{}}}, {St: no, Res: []AV{avNil{}, errv}}}, true
+				}
+			}
 		}
 		res := make([]AV, nres)
 		for i := range res {
